@@ -31,6 +31,7 @@ SearchViol(t) ==
             (IF Len(t.res) = 0 /\ n > 0 THEN {<<l, "EmptySuccess">>}
              ELSE IF Len(t.res) = n /\ \A j \in 1..n : t.res[j][2] = all[j] THEN {} ELSE {<<l, "WrongTopK">>})
             \cup (IF \A a, b \in 1..Len(t.res) : a # b => t.res[a][1] # t.res[b][1] THEN {} ELSE {<<l, "DuplicateId">>})
+            \cup (IF t.ev = "search" /\ t.asked # 1 THEN {<<l, "NotEachOnce">>} ELSE {})
        [] t.ret = "err" /\ AllOk(t) /\ ~Cancelled(t) -> {<<l, "SpuriousError">>}
        [] OTHER -> {}
 
